@@ -38,6 +38,52 @@ K_NOT_VALUE = "encoding-does-not-parse-to-value"
 SAFE_STR = re.compile(r"^[a-z]( ?[a-z])*$")
 
 
+# ------------------------------------------------------------------ the flow header tables when the behavioural probe fails
+def safe_flow_tables():
+    """c07.flow_ctx_tables() tabulates FlowRowModel.header_name_to_field_name_with_context by CALLING it many times in this
+    process; a tree on which that function keeps state between calls (a cache keyed by the header alone, say) makes the
+    probe refuse — the very class of defect the sheet histories are after.  The generators and the oracle still need the
+    tables: they are then read from the SOURCE (the two dict literals of the function), and the refusal is returned so that
+    the caller can report it.  -> (tables, refusal message or None)"""
+    import ast
+    import inspect
+    import os
+    import sys
+    import textwrap
+
+    from c07 import flow_ctx_tables
+    here = os.path.dirname(os.path.abspath(__file__))
+    tdir = os.path.join(here, "..", "translator")
+    if tdir not in sys.path:
+        sys.path.append(tdir)          # tables_row._refuse imports gen_tables.Refuse
+    try:
+        cx = flow_ctx_tables()
+        if cx.get("sw_table") and cx.get("sw_header") and cx.get("basic"):
+            return cx, None
+        msg = "the probe found no row-dependent header / an empty table"
+    except Exception as e:
+        msg = f"{type(e).__name__}: {e}"
+    from rpft.parsers.creation import flowrowmodel
+
+    basic, table = None, None
+    tree = ast.parse(textwrap.dedent(inspect.getsource(flowrowmodel.FlowRowModel)))
+    for node in ast.walk(tree):
+        if isinstance(node, ast.Dict):
+            try:
+                d = ast.literal_eval(node)
+            except Exception:
+                continue
+            if not d or not all(isinstance(k, str) and isinstance(x, str) for k, x in d.items()):
+                continue
+            if any("*" in x for x in d.values()) and "from" in d:
+                basic = d
+            elif "send_message" in d:
+                table = d
+    if basic is None or table is None:
+        raise RuntimeError("flow header tables: probe refused (" + msg + ") and the source has no such dict literals")
+    return dict(basic=basic, sw_header="message_text", sw_column="type", sw_table=table, sw_strip=None), msg
+
+
 # ------------------------------------------------------------------ native literals for a field
 def native_literal(rng, ft, v):
     """the text of a {@ @} cell whose result is the value v of a field of type ft; None = not written natively"""
@@ -594,7 +640,7 @@ class Clean:
 # ------------------------------------------------------------------ the stream
 def run_sheets(ctx, nontrivial):
     import isolate
-    from c07 import flow_desc, flow_ctx_tables
+    from c07 import flow_desc
 
     import time
     t0 = time.time()
@@ -605,7 +651,7 @@ def run_sheets(ctx, nontrivial):
           "rows_with_a_packed_cell_after_a_native_cell": 0, "rows_after_a_native_row": 0, "rows_after_a_failing_row": 0,
           "include_if_pre_evaluations": 0, "values_with_several_layouts_in_one_sheet": 0,
           "layout_parses_to_another_value": {}, "model_compared": 0, "model_unsupported": 0, "failures": 0}
-    desc, cx = flow_desc(), flow_ctx_tables()
+    desc, (cx, _refusal) = flow_desc(), safe_flow_tables()
     iso = None
     try:
         iso = isolate.Isolated()
